@@ -255,7 +255,8 @@ class Workload:
         self.busy = False  # a writer call has raised OperationalError in this run
         self.viols = []
         self.last_visible = 0
-        self.columns = collections.OrderedDict()
+        self.columns = collections.OrderedDict()  # table -> columns required by accepted writes
+        self.maybe_columns = collections.OrderedDict()  # table -> columns only refused writes asked for (may exist)
         self.closed = False
         self.refused = 0
         self.clean_refused = 0  # INSERTs refused while another connection held the write lock: nothing stored, caller told
@@ -398,7 +399,9 @@ class Workload:
             return
         if name in SQL_KEYWORDS or any(f in SQL_KEYWORDS for _, f in fields):
             self.w.probe("sql-keyword-name")
-        cols = self.columns.setdefault(name, [])
+        # a refused write may or may not have evolved the schema before it failed: its table and columns are allowed,
+        # not required (an accepted write later makes them required)
+        cols = self.columns.setdefault(name, []) if ok else self.maybe_columns.setdefault(name, [])
         for _, f in fields:
             if f not in cols:
                 if cols and not new_desc:
@@ -664,14 +667,16 @@ class Workload:
             self.compare_relaxed(content, "after close", final=True)
         # shape: one table per type name, columns = union of fields + reserved
         want_tables = list(self.columns)
-        if sorted(content) != sorted(t for t in want_tables):
+        may_tables = set(self.maybe_columns)
+        if not (set(want_tables) <= set(content) <= set(want_tables) | may_tables):
             self.add(_viol("C18.shape", "tables %r, expected one per record type name %r" % (sorted(content), sorted(want_tables))))
-        for t, cols in self.columns.items():
-            if t in content:
-                have = content[t][0]
-                want = set(cols) | {"_source", "_classification", "_generated", "_version"}
-                if set(have) != want or len(have) != len(set(have)):
-                    self.add(_viol("C18.shape", "table %r has columns %r, expected the union of its fields %r plus the reserved ones" % (t, have, cols)))
+        for t in content:
+            cols = self.columns.get(t, [])
+            have = content[t][0]
+            want = set(cols) | {"_source", "_classification", "_generated", "_version"}
+            allowed = want | set(self.maybe_columns.get(t, []))
+            if not (want <= set(have) <= allowed) or len(have) != len(set(have)):
+                self.add(_viol("C18.shape", "table %r has columns %r, expected the union of its fields %r plus the reserved ones" % (t, have, cols)))
         # the library's reader
         try:
             back = collections.OrderedDict()
